@@ -62,9 +62,10 @@ Fixpoint has_W (s : string) : bool :=
 
 (* date.fromisoformat (3.11+).  Strings that contain 'W' may be ISO week dates: not modelled. *)
 Definition parse_iso (s : string) : iso_result :=
-  if has_W s then IsoUnmodelled
+  let n := String.length s in
+  if has_W s && (Nat.eqb n 7 || Nat.eqb n 8 || Nat.eqb n 10) then IsoUnmodelled
   else
-    match String.length s with
+    match n with
     | 10%nat =>
         let y := stake 4 s in let s1 := sdrop 4 s in
         let m := stake 2 (sdrop 1 s1) in let s2 := sdrop 3 s1 in
